@@ -1,3 +1,7 @@
+(* ADDED IN THE THIRD ROUND (SoundCore*.v): the replica invariant RInv across core_apply_proof — accepted block/upgrade proofs preserve it or exhibit
+   a collision / a signature on a message the writer never signed; replica reads are the writer's blocks; refusal at a gate is a no-op; the
+   size carve-out is refuted beyond the property's quantifier (size_carveout_refuted, size_carveout_upgrade_additional_refuted).
+   ---- header of the earlier rounds: ---- *)
 (* C04 — forged or altered proofs never change what a replica believes (pinned statements; proofs in
    Sound.v, CoreFacts.v when it lands). Cryptographic primitives are arbitrary functions (record cr):
    nothing is assumed about them. Every statement is a reduction: "the verifier accepted => what it
@@ -11,6 +15,7 @@
    Partial: the composition into "replica invariant preserved by verify_and_apply_proof" (byte offsets,
    storage) and Ed25519 unforgeability itself are not proved; the alteration enumeration of tools/c04.py
    covers the composition on every run. *)
+From HC Require Import FlatTree Bitfield Oplog Merkle Core Refine SoundCoreLib SoundCore SoundCoreUp SoundCoreBU.
 From HC Require Import Base NMap Codec CodecFacts Crypto FlatTree Storage Bitfield Oplog Merkle Core Sound CoreFacts.
 
 Theorem C04_block_value_sound : forall cr (T : N -> node) b oh c root c' v0,
@@ -91,6 +96,136 @@ Proof. exact apply_not_commitable. Qed.
 Example C04_ex_premises : consistent_path toy toyT 2 (it_new 0) /\ (forall i, length (n_hash (toyT i)) = 32%nat).
 Proof. split; [exact toy_path | exact toy_hash32]. Qed.
 
+Theorem C04_accepted_proof_keeps_replica_consistent :
+  forall cr : crypto,
+         (forall x : bytes, Datatypes.length (cr_hash cr x) = 32%nat) ->
+         (forall x : bytes, all_zero (cr_hash cr x) = false) ->
+         forall bs : list bytes,
+         writer_fits bs ->
+         forall (f : option bool) (pf : proof) (c : core) (d : disk) (j : list sop) 
+           (ev : list event) (c' : core) (w' : world),
+         RInv cr bs c d ->
+         block_upgrade_ok pf ->
+         core_apply_proof cr f pf c {| w_disk := d; w_journal := j; w_events := ev |} = (c', w', Ok true) ->
+         RInv cr bs c' (w_disk w') \/ some_collision cr \/ forged_signature cr bs (kp_public (c_keypair c)).
+Proof. exact apply_keeps_replica_consistent_block_upgrade. Qed.
+
+Theorem C04_accepted_proof_reads_are_the_writers :
+  forall cr : crypto,
+         (forall x : bytes, Datatypes.length (cr_hash cr x) = 32%nat) ->
+         (forall x : bytes, all_zero (cr_hash cr x) = false) ->
+         forall bs : list bytes,
+         writer_fits bs ->
+         forall (f : option bool) (pf : proof) (c : core) (d : disk) (j : list sop) 
+           (ev : list event) (c' : core) (w' : world),
+         RInv cr bs c d ->
+         block_upgrade_ok pf ->
+         core_apply_proof cr f pf c {| w_disk := d; w_journal := j; w_events := ev |} = (c', w', Ok true) ->
+         (forall (i : N) (j' : list sop) (ev' : list event),
+          core_get i c' {| w_disk := w_disk w'; w_journal := j'; w_events := ev' |} =
+          (if bf_get (c_bitfield c') i
+           then
+            (c', {| w_disk := w_disk w'; w_journal := j'; w_events := ev' |},
+             Ok (Some (nth (N.to_nat i) bs [])))
+           else (c', {| w_disk := w_disk w'; w_journal := j'; w_events := EvGet i :: ev' |}, Ok None))) \/
+         some_collision cr \/ forged_signature cr bs (kp_public (c_keypair c)).
+Proof. exact accepted_proof_reads_writer_blocks. Qed.
+
+Theorem C04_replica_reads_under_invariant :
+  forall (cr : crypto) (bs : list bytes),
+         writer_fits bs ->
+         forall (c : core) (d : disk) (j : list sop) (ev : list event) (i : N),
+         RInv cr bs c d ->
+         core_get i c {| w_disk := d; w_journal := j; w_events := ev |} =
+         (if bf_get (c_bitfield c) i
+          then (c, {| w_disk := d; w_journal := j; w_events := ev |}, Ok (Some (TreeRef.blk bs i)))
+          else (c, {| w_disk := d; w_journal := j; w_events := EvGet i :: ev |}, Ok None)).
+Proof. exact get_replica. Qed.
+
+Theorem C04_replica_never_reads_a_foreign_block :
+  forall (cr : crypto) (bs : list bytes),
+         writer_fits bs ->
+         forall (c : core) (d : disk) (j : list sop) (ev : list event) (i : N) (c' : core) 
+           (w' : world) (v : bytes),
+         RInv cr bs c d ->
+         core_get i c {| w_disk := d; w_journal := j; w_events := ev |} = (c', w', Ok (Some v)) ->
+         v = nth (N.to_nat i) bs [].
+Proof. exact get_replica_sound. Qed.
+
+Theorem C04_refusal_at_a_gate_is_a_noop :
+  forall (cr : crypto) (f : option bool) (pf : proof) (c : core) (w : world),
+         refused_at_gate cr c w pf ->
+         exists r : res bool,
+           core_apply_proof cr f pf c w = (c, w, r) /\
+           (r = Ok false \/
+            p_fork pf = t_fork (c_tree c) /\
+            (forall b : bool, r <> Ok b) /\
+            match r with
+            | Ok _ => False
+            | Err e => match verifier_says cr c w pf with
+                       | Err e' => e = e'
+                       | _ => False
+                       end
+            | Panic s => match verifier_says cr c w pf with
+                         | Panic s' => s = s'
+                         | _ => False
+                         end
+            | OutOfFuel => match verifier_says cr c w pf with
+                           | OutOfFuel => True
+                           | _ => False
+                           end
+            end).
+Proof. exact apply_refusal_noop. Qed.
+
+Theorem C04_not_accepted_classified :
+  forall (cr : crypto) (f : option bool) (pf : proof) (c : core) (w : world) 
+           (c' : core) (w' : world) (r : res bool),
+         core_apply_proof cr f pf c w = (c', w', r) ->
+         r <> Ok true ->
+         c' = c /\ w' = w /\ refused_at_gate cr c w pf \/
+         (exists cs : changeset,
+            p_fork pf = t_fork (c_tree c) /\
+            verifier_says cr c w pf = Ok cs /\ commitable (c_tree c) cs = true /\ (forall b : bool, r <> Ok b)).
+Proof. exact apply_not_accepted. Qed.
+
+Theorem C04_accepted_block_section_is_the_writers :
+  forall cr : crypto,
+         (forall x : bytes, Datatypes.length (cr_hash cr x) = 32%nat) ->
+         (forall x : bytes, all_zero (cr_hash cr x) = false) ->
+         forall bs : list bytes,
+         sumN (map len bs) <= u64_max ->
+         forall (t : mtree) (tf : file) (r fork : N) (b : data_block) (pk : bytes) (cs : changeset),
+         unfl_sound cr bs t r ->
+         file_sound cr bs tf r ->
+         verify_proof cr t tf
+           {| p_fork := fork; p_block := Some b; p_hash := None; p_seek := None; p_upgrade := None |} pk =
+         Ok cs ->
+         db_value b = TreeRef.blk bs (db_index b) /\
+         db_nodes b = ref_sibs cr bs (Datatypes.length (db_nodes b)) 0 (db_index b) \/ 
+         some_collision cr.
+Proof. exact accepted_block_section_is_writers. Qed.
+
+Theorem C04_fresh_replica_invariant :
+  forall cr : crypto,
+         (forall x : bytes, Datatypes.length (cr_hash cr x) = 32%nat) ->
+         (forall x : bytes, all_zero (cr_hash cr x) = false) ->
+         forall (bs : list bytes) (kp : keypair),
+         len (enc_header (header_new kp)) < 1073741824 ->
+         exists (d' : disk) (ops : list sop) (c : core),
+           core_open cr (Some kp) false disk_empty = (d', ops, Ok c) /\ RInv cr bs c d' /\ c_keypair c = kp.
+Proof. exact RInv_fresh. Qed.
+
+Theorem C04_single_size_alteration_detected :
+  forall (cr : crypto) (bs : list bytes),
+         sumN (map len bs) <= u64_max ->
+         forall a a' b : node,
+         n_index a = n_index a' ->
+         n_hash a = n_hash a' ->
+         n_length a + n_length b < 2 ^ 64 ->
+         n_length a' + n_length b < 2 ^ 64 ->
+         parent_hash cr a b = parent_hash cr a' b -> n_length a = n_length a' \/ some_collision cr.
+Proof. exact single_size_alteration_detected. Qed.
+
 Print Assumptions C04_block_value_sound.
 Print Assumptions C04_climb_sound.
 Print Assumptions C04_leaf_hash_binds.
@@ -101,3 +236,17 @@ Print Assumptions C04_accept_means_checked.
 Print Assumptions C04_refused_by_fork_gate.
 Print Assumptions C04_refused_by_verifier.
 Print Assumptions C04_refused_by_commit_gate.
+Print Assumptions C04_accepted_proof_keeps_replica_consistent.
+Print Assumptions C04_accepted_proof_reads_are_the_writers.
+Print Assumptions C04_replica_reads_under_invariant.
+Print Assumptions C04_replica_never_reads_a_foreign_block.
+Print Assumptions C04_refusal_at_a_gate_is_a_noop.
+Print Assumptions C04_not_accepted_classified.
+Print Assumptions C04_accepted_block_section_is_the_writers.
+Print Assumptions C04_fresh_replica_invariant.
+Print Assumptions C04_single_size_alteration_detected.
+Print Assumptions SoundCore.size_carveout_refuted.
+Print Assumptions SoundCore.size_carveout_upgrade_additional_refuted.
+Print Assumptions SoundCore.sc_replication.
+Print Assumptions SoundCoreBU.sc_block_upgrade_theorem_applies.
+Print Assumptions SoundCore.sc_refusal_applies.
